@@ -695,6 +695,14 @@ func runCase(c Case) (vkit.Info, error) {
 	if err2 == nil {
 		info2.Inconclusive = true
 		info2.Class("violation-not-reproduced")
+		msg := err.Error()
+		if i := strings.Index(msg, "): "); i > 0 && i < 200 {
+			msg = msg[i+3:]
+		}
+		if len(msg) > 90 {
+			msg = msg[:90]
+		}
+		info2.Class("violation-not-reproduced: " + msg)
 		fmt.Printf("C18: a violation did not reproduce on re-execution and is counted as undecided: %v\n", err)
 		return info2, nil
 	}
